@@ -593,10 +593,12 @@ func (p *DevStatusAnsPayload) UnmarshalBinary(data []byte) error {
 		return errors.New("lorawan: 2 bytes of data are expected")
 	}
 	p.Battery = data[0]
-	if data[1] > 31 {
-		p.Margin = int8(data[1]) - 64
+	// only the 6 LSB hold the margin, the 2 MSB are RFU
+	margin := data[1] & 0x3f
+	if margin > 31 {
+		p.Margin = int8(margin) - 64
 	} else {
-		p.Margin = int8(data[1])
+		p.Margin = int8(margin)
 	}
 	return nil
 }
@@ -713,7 +715,8 @@ func (p *RXTimingSetupReqPayload) UnmarshalBinary(data []byte) error {
 	if len(data) != 1 {
 		return errors.New("lorawan: 1 byte of data is expected")
 	}
-	p.Delay = data[0]
+	// only the 4 LSB hold the delay, the 4 MSB are RFU
+	p.Delay = data[0] & 0x0f
 	return nil
 }
 
@@ -1040,7 +1043,8 @@ func (v *Version) UnmarshalBinary(data []byte) error {
 	if len(data) != 1 {
 		return errors.New("lorawan: 1 byte of data is expected")
 	}
-	v.Minor = data[0]
+	// only the 4 LSB hold the minor version, the 4 MSB are RFU
+	v.Minor = data[0] & 0x0f
 	return nil
 }
 
